@@ -1,7 +1,15 @@
-(* Observation commands: filled in by the corresponding property work; definitions only. *)
+(* Observation commands of the name domain (C13).  Definitions only. *)
 From Coq Require Import List NArith Bool String.
 Import ListNotations.
-Require Import Show.
+Require Import VParse VMeaning Names Show.
 Open Scope N_scope.
 
-Definition run_names (cmd : list N) (args : list (list N)) : option (list N) := None.
+(* n.name s  ->  validate|normalized|canonical    validate = T when canonicalize_name(s, validate=True) returns (the same value), F when InvalidName *)
+Definition obs_name (s : list N) : list N :=
+  fields [ match canonicalize_name true s with NOk _ => show_bool true | NInvalidName => show_bool false end;
+           show_bool (is_normalized s);
+           match canonicalize_name false s with NOk c => c | NInvalidName => asc "E" end ].
+
+Definition run_names (cmd : list N) (args : list (list N)) : option (list N) :=
+  if seqb cmd (asc "n.name") then Some (obs_name (nth_str 0 args))
+  else None.
